@@ -22,6 +22,8 @@ var Leaves = []string{
 	`{"$ref":"#/definitions/pos"}`,
 	`{"$ref":"#/definitions/chain"}`,
 	`{"$ref":"#/definitions/obj"}`,
+	// a composition whose FIRST branch is itself a composition, followed by something else
+	`{"allOf":[{"anyOf":[{"type":"integer"},{"type":"string"}]},{"minimum":0}]}`,
 }
 
 // SmallLeaves is the subset used where two or three slots are filled independently.
@@ -63,6 +65,8 @@ var BaseAtoms = []string{
 	`{"properties":{"properties":{"properties":{"properties":{"type":"integer"},"items":{"type":"integer"}}}}}`,
 	`{"properties":{"items":{"properties":{"items":{"type":"integer"},"type":{"type":"integer"}}},"default":{"properties":{"example":{"type":"integer"}}}}}`,
 	`{"properties":{"":{"type":"integer"},"a.b":{"type":"integer"}},"required":[""]}`,
+	// a DECLARED property matched by two pattern properties that disagree about its value
+	`{"properties":{"ab":{}},"patternProperties":{"^a":{"type":"integer"},"b$":{"maximum":0}}}`,
 }
 
 // slotted atoms: %s is replaced by every leaf
